@@ -211,11 +211,141 @@ class _IfExpDesugar(ast.NodeTransformer):
         return node
 
 
+class _PlainAssign(ast.NodeTransformer):
+    """`x: T = v` inside a function body -> `x = v` (a local annotation has no run-time effect); `x: T` alone -> dropped."""
+
+    def visit_AnnAssign(self, st):  # noqa: N802
+        if st.value is None:
+            return ast.copy_location(ast.Pass(), st) if isinstance(st.target, ast.Name) else st
+        return ast.copy_location(ast.Assign(targets=[st.target], value=st.value, type_comment=None), st)
+
+    def visit_ClassDef(self, node):  # noqa: N802
+        return node   # class-level annotations declare fields (dataclasses, descriptors): left alone
+
+    def visit_Lambda(self, node):  # noqa: N802
+        return node
+
+
 def desugar_ifexp(modules: dict):
     for mod in modules.values():
         for node in ast.walk(mod.tree):
             if isinstance(node, FUNC):
+                _PlainAssign().generic_visit(node)
                 _IfExpDesugar().generic_visit(node)
+        ast.fix_missing_locations(mod.tree)
+
+
+# ----------------------------------------------------------------------------------------------------- 4. table-driven loops
+def _const_rows(e, module_consts):
+    """[(c1, c2..), ..] for a literal tuple/list of constants or of equally long tuples of constants (directly, or through a
+    module-level name bound once to such a literal); else None."""
+    if isinstance(e, ast.Name) and e.id in module_consts:
+        e = module_consts[e.id]
+    if not isinstance(e, (ast.Tuple, ast.List)) or not e.elts or len(e.elts) > 16:
+        return None
+    rows = []
+    for x in e.elts:
+        if isinstance(x, ast.Constant) and isinstance(x.value, (str, int, float)) and not isinstance(x.value, bool):
+            rows.append((x,))
+        elif isinstance(x, (ast.Tuple, ast.List)) and x.elts and all(
+                isinstance(y, ast.Constant) and isinstance(y.value, (str, int, float)) for y in x.elts):
+            rows.append(tuple(x.elts))
+        else:
+            return None
+    if len({len(r) for r in rows}) != 1:
+        return None
+    return rows
+
+
+class _Unroll(ast.NodeTransformer):
+    def __init__(self, module_consts, log, where):
+        self.consts = module_consts
+        self.log = log
+        self.where = where
+
+    def visit_For(self, st):  # noqa: N802
+        self.generic_visit(st)
+        rows = _const_rows(st.iter, self.consts)
+        if rows is None or st.orelse:
+            return st
+        if isinstance(st.target, ast.Name):
+            names = [st.target.id]
+            single = True
+        elif isinstance(st.target, ast.Tuple) and all(isinstance(t, ast.Name) for t in st.target.elts):
+            names = [t.id for t in st.target.elts]
+            single = False
+        else:
+            return st
+        width = len(rows[0])
+        if (single and width != 1 and False) or (not single and width != len(names)):
+            return st
+        for n in ast.walk(st):
+            if n is not st and isinstance(n, (ast.Break, ast.Continue)):
+                return st
+            if isinstance(n, ast.Name) and n.id in names and isinstance(n.ctx, (ast.Store, ast.Del)) and n is not st.target \
+                    and not any(n is t for t in ast.walk(st.target)):
+                return st
+        out = []
+        for row in rows:
+            if single and width != 1:
+                mapping = {names[0]: ast.Tuple(elts=list(row), ctx=ast.Load())}
+            else:
+                mapping = dict(zip(names, row))
+            for b in st.body:
+                out.append(_Subst(mapping).visit(clone(b)))
+        self.log.append(f'unroll {self.where}: loop over {len(rows)} constant rows at line {st.lineno}')
+        return out
+
+
+class _LiteralAttr(ast.NodeTransformer):
+    """getattr(x, 'name') -> x.name ; setattr(x, 'name', v) as a statement -> x.name = v"""
+
+    def visit_Call(self, node):  # noqa: N802
+        self.generic_visit(node)
+        if isinstance(node.func, ast.Name) and node.func.id == 'getattr' and len(node.args) == 2 and not node.keywords and \
+                isinstance(node.args[1], ast.Constant) and isinstance(node.args[1].value, str) and node.args[1].value.isidentifier():
+            return ast.copy_location(ast.Attribute(value=node.args[0], attr=node.args[1].value, ctx=ast.Load()), node)
+        return node
+
+    def visit_Expr(self, st):  # noqa: N802
+        self.generic_visit(st)
+        c = st.value
+        if isinstance(c, ast.Call) and isinstance(c.func, ast.Name) and c.func.id == 'setattr' and len(c.args) == 3 and \
+                not c.keywords and isinstance(c.args[1], ast.Constant) and isinstance(c.args[1].value, str) and \
+                c.args[1].value.isidentifier():
+            tgt = ast.Attribute(value=c.args[0], attr=c.args[1].value, ctx=ast.Store())
+            return ast.copy_location(ast.Assign(targets=[tgt], value=c.args[2], type_comment=None), st)
+        return st
+
+
+def unroll_constant_loops(modules: dict, log: list):
+    """`for a, b in CONSTANT_TABLE: ... getattr(x, a) ... setattr(self, b, ..)` is the table-driven spelling of a sequence of
+    plain statements; it is rewritten to that sequence (the loop has no break / continue / else and does not assign its own
+    variables), and getattr / setattr with a literal name become attribute access / assignment."""
+    for mname, mod in modules.items():
+        consts = {}
+        for st in mod.tree.body:
+            if isinstance(st, ast.Assign) and len(st.targets) == 1 and isinstance(st.targets[0], ast.Name):
+                consts[st.targets[0].id] = st.value
+            elif isinstance(st, ast.AnnAssign) and isinstance(st.target, ast.Name) and st.value is not None:
+                consts[st.target.id] = st.value
+        # names bound more than once at module level are not constants
+        seen = {}
+        for st in mod.tree.body:
+            for t in (st.targets if isinstance(st, ast.Assign) else [st.target] if isinstance(st, ast.AnnAssign) else []):
+                if isinstance(t, ast.Name):
+                    seen[t.id] = seen.get(t.id, 0) + 1
+        consts = {k: v for k, v in consts.items() if seen.get(k) == 1}
+        for node in ast.walk(mod.tree):
+            if isinstance(node, FUNC):
+                before = len(log)
+                new_body = []
+                for st in node.body:
+                    r = _Unroll(consts, log, f'{mname}.{node.name}').visit(st)
+                    new_body.extend(r if isinstance(r, list) else [r])
+                node.body = new_body
+                if len(log) > before:
+                    _LiteralAttr().visit(node)
         ast.fix_missing_locations(mod.tree)
 
 
